@@ -450,6 +450,28 @@ def r5(cx, run):
                     if {vq} in per and {aq} in per:
                         run.check(last_ == "max", "R6", key + " tracks combined by maximum", "end = max(video end, audio end)",
                                   "the end times of the two tracks are combined with `%s`: the statistic is not the largest presentation end over all accepted samples" % last_, mir.loc_of(ct))
+        # R6: ... and nothing is subtracted from / added to the combined end afterwards (the statistic is an end time, not a length)
+        for c in sorted(callees):
+            fb = u.bodies[c]
+            ret = sym.expand_phi(fb, sym.expr_local(fb, 0), 3)
+
+            def is_end(x):
+                # a per-track end (call of a local function that is handed a queue) or the maximum of such
+                return isinstance(x, tuple) and x and x[0] == "call" and ((len(x) > 3 and x[3] in u.bodies) or x[1].split("::")[-1] == "max") and \
+                    any(isinstance(y, tuple) and len(y) > 1 and y[0] in ("load", "refplace") and y[1] in ("arg1." + vq, "arg1." + aq) for y in sym.walk(x))
+            arith = []
+            for y in sym.walk(ret):
+                if not (isinstance(y, tuple) and y):
+                    continue
+                opn = None
+                if y[0] == "bin" and y[1].replace("WithOverflow", "").replace("Unchecked", "") in ("Sub", "Add", "Mul", "Div", "Rem", "Shl", "Shr"):
+                    opn, kids = y[1], y[2:4]
+                elif y[0] == "call" and y[1].split("::")[-1] in ("saturating_sub", "wrapping_sub", "checked_sub", "saturating_add", "wrapping_add", "checked_add", "abs_diff", "min", "clamp"):
+                    opn, kids = y[1].split("::")[-1], y[2]
+                if opn and any(is_end(z) for k_ in kids for z in sym.walk(k_)):
+                    arith.append(opn)
+            run.check(not arith, "R6", key + " end time returned as it is", "the combined end of the tracks is returned without further arithmetic",
+                      "`%s` is applied to the tracks' end time before it is returned: the statistic is no longer the largest presentation end (presentation time plus duration) over the accepted samples" % (arith[0] if arith else ""), mir.loc_of(fb))
         if len(pairing) == 2 and callees:
             run.check(npair >= 2, "R5", key + " end-time pairing sites", "%d queue/last-delta pairings found in the duration function" % npair,
                       "could not find where the duration function combines each queue with a last-delta field (found %d)" % npair, mir.loc_of(st))
